@@ -402,7 +402,7 @@ impl Factors {
     /// para el perímetro distante y próximo, para facilitar el cálculo de RER_nrb
     #[allow(non_snake_case)]
     pub(crate) fn add_cgn_factors(&mut self, components: &Components) -> Result<()> {
-        let fP_exp_el_cgn_A = match self.compute_cgn_exp_fP_A(components, false)? {
+        let fP_exp_el_cgn_A = match self.compute_cgn_exp_fP_A(components, None)? {
             Some(fP) => fP,
             _ => return Ok(()),
         };
@@ -473,7 +473,7 @@ impl Factors {
     pub(crate) fn compute_cgn_exp_fP_A(
         &self,
         components: &Components,
-        only_nearby: bool,
+        perimeter: Option<fn(&Carrier) -> bool>,
     ) -> Result<Option<RenNrenCo2>> {
         // Si hay producción eléctrica
         // Calcula f_exp_pr_el_A_chp_t = suma (E_in_t * f_in_t) / pr_el_chp_t
@@ -511,7 +511,8 @@ impl Factors {
         for (carrier, used_t) in used {
             #[cfg(feature = "verif_hooks")]
             crate::verif_hooks::observe("wfactors::compute_cgn_exp_fP_A::fuel", carrier.to_string());
-            if only_nearby && !carrier.is_nearby() {
+            // Solo se consideran los combustibles dentro del perímetro indicado (si se indica alguno)
+            if perimeter.map(|in_perimeter| !in_perimeter(&carrier)).unwrap_or(false) {
                 continue;
             }
             let fP_A_cr = self.find(carrier, Source::RED, Dest::SUMINISTRO, Step::A)?;
